@@ -18,8 +18,13 @@ class C13(Prop):
     id = "C13"
     title = "Input framing ignores packet boundaries and survives any byte stream"
     lean_modules = ["NV.C13.Props", "NV.C13.Witness"]
-    theorems = []          # filled below
-    witness_theorems = []
+    theorems = ["NV.C13.ts_layout", "NV.C13.sb_array_has_room", "NV.C13.sb_in_bounds", "NV.C13.copy_chars_expansion",
+                "NV.C13.buffer_writes_in_bounds", "NV.C13.space_rule_sufficient", "NV.C13.space_rule_numbers",
+                "NV.C13.input_never_overflows", "NV.C13.segmentation_independent",
+                "NV.C13.stored_text_is_stream_text", "NV.C13.negotiation_never_in_text", "NV.C13.editing_applied",
+                "NV.C13.ccByte_ok", "NV.C13.copyChars_append"]
+    witness_theorems = ["NV.C13.sb_terminator_overflows_exact_array", "NV.C13.ayt_returns_to_data",
+                        "NV.C13.full_sb_payload_is_not_text", "NV.C13.ascii_spec_example"]
     consts = [
         ("maxText", "MAX_TEXT"), ("sbSize", "SB_SIZE"),
         ("sbBufSize", "sizeof(((interactive_t*)0)->sb_buf)"),
@@ -371,7 +376,8 @@ class C13(Prop):
         h = {"cases_by_port": {}, "reads": 0, "cmd": 0, "input": 0, "cb": 0, "tx": 0, "nocmd": 0, "wouldblock": 0,
              "discard_or_compaction_reads": 0, "max_text_end": 0, "max_sb_pos": 0, "closed": 0, "states_seen": {}}
         for c in cases:
-            port = c.lines[0].split()[-1] if c.lines else "?"
+            body = [l for l in c.lines if l and not l.startswith("#")]
+            port = body[0].split()[-1] if body else "?"
             h["cases_by_port"][port] = h["cases_by_port"].get(port, 0) + 1
             prev_end = 0
             for l in impl.get(c.id, []):
